@@ -260,12 +260,13 @@ def debug_flag(sid, which, **slots):
     av = e.mk(**slots)
     t = _fresh(e.t)
     spec, v = mk_type(t), build(t, av)
-    enc = der_encoder.encode(v)
+    enc = der_encoder.encode(build(t, av))
     plain = _safe_call(which, v, spec, enc)
     depth = len(debug.scope._list) if hasattr(debug, "scope") and hasattr(debug.scope, "_list") else None
     debug.setLogger(debug.Debug("all", printer=lambda *a: None))
     try:
-        logged = _safe_call(which, v, spec, enc)
+        # (a second, equal value: whatever the first call may have done to its argument must not mask a difference)
+        logged = _safe_call(which, build(t, av), spec, enc)
     finally:
         debug.setLogger(0)
     if logged != plain:
